@@ -1,4 +1,4 @@
-import GitSizer.Proofs.GraphRun7
+import GitSizer.Proofs.ScanCheck
 /-! Non-vacuity of the whole-run theorem: a concrete repository (a blob, a tree holding it twice
     under different names, a subtree-holding root tree delivered BEFORE its subtree, a commit, a tag)
     and a concrete valid schedule satisfy every hypothesis of `run_numbers`. -/
@@ -113,5 +113,63 @@ theorem demo_result :
     ∃ st, runOps demo demoOps {} = .ok st ∧ historySize demo st = .ok st.hist ∧
       RunResult demo st.hist [0] [2, 1] [3] [4] 1 := by
   simpa [demoOps, blobsOf, treesOf, commitsOf, tagsOf, refsOf] using demo_run.result
+
+/-! ### the driver level: a concrete listing meets git's contract as stated in `Scan.Listing` -/
+
+def demoListing : List Nat := [4, 3, 2, 1, 0]
+
+theorem demo_typed : Scan.Typed demo := by
+  refine ⟨?_, ?_, ?_⟩
+  · intro t e he hk
+    match t with
+    | 0 | 3 | 4 => simp [Repo.entries, Repo.obj, demo] at he
+    | 1 => simp [Repo.entries, Repo.obj, demo] at he; rcases he with rfl | rfl <;> rfl
+    | 2 => simp [Repo.entries, Repo.obj, demo] at he; subst he; simp [Entry.kind] at hk
+    | n + 5 => rw [entries_out (n + 5) (by omega)] at he; cases he
+  · intro t e he hk
+    match t with
+    | 0 | 3 | 4 => simp [Repo.entries, Repo.obj, demo] at he
+    | 1 => simp [Repo.entries, Repo.obj, demo] at he; rcases he with rfl | rfl <;> simp [Entry.kind] at hk
+    | 2 => simp [Repo.entries, Repo.obj, demo] at he; subst he; rfl
+    | n + 5 => rw [entries_out (n + 5) (by omega)] at he; cases he
+  · intro c s tr ps h
+    match c with
+    | 0 | 1 | 2 | 4 => simp [Repo.obj, demo] at h
+    | 3 => simp [Repo.obj, demo] at h; obtain ⟨_, rfl, _⟩ := h; rfl
+    | n + 5 =>
+      have : demo.obj (n + 5) = none := by unfold Repo.obj demo; exact List.getElem?_eq_none (by simp)
+      rw [this] at h; cases h
+
+theorem demo_listing : Scan.Listing demo demoListing := by
+  refine ⟨by decide, by decide, ?_, by decide⟩
+  intro i hi j hj
+  simp only [demoListing, List.mem_cons, List.not_mem_nil, or_false] at hi
+  rcases hi with rfl | rfl | rfl | rfl | rfl <;> revert j <;> decide
+
+/-- the whole-scan theorem applies to the demo: the driver's schedule for the listing
+    `[tag, commit, root tree, subtree, blob]` yields the census -/
+theorem demo_scan : ∃ h, Scan.scan demo demoListing [[], []] = .ok h ∧
+    RunResult demo h [0] [2, 1] [3] [4] 2 := by
+  have := Scan.scan_numbers demo demo_ok demo_typed demoListing demo_listing [[], []] demo_run.sizes demo_run.nparents
+  simpa [Scan.blobsIn, Scan.treesIn, Scan.commitsIn, Scan.tagsIn, demoListing, List.filter, Scan.isBlob, Scan.isTree,
+    Scan.isTag, Repo.isCommit, Repo.obj, demo] using this
+
+/-! ### the judges' hypothesis checkers are sound
+    The graph and e2e judges evaluate `Scan.runHypothesesb` / `Scan.scanHypothesesb` on every case
+    and tag the verdict `thm` when they accept; by the two theorems below the whole-run / whole-scan
+    theorem then applies to that very repository and schedule (the count is in the evidence). -/
+
+theorem run_checker_sound (r : Repo) (ops : List Op) (h : Scan.runHypothesesb r ops = true) :
+    ∃ st, runOps r ops {} = .ok st ∧ historySize r st = .ok st.hist ∧
+      RunResult r st.hist (blobsOf ops) (treesOf ops) (commitsOf ops) (tagsOf ops) (refsOf ops) :=
+  (Scan.runHypothesesb_sound r ops h).result
+
+theorem scan_checker_sound (r : Repo) (L : List Nat) (refs : List (List Bytes)) (h : Scan.scanHypothesesb r L = true) :
+    ∃ hist, Scan.scan r L refs = .ok hist ∧
+      RunResult r hist (Scan.blobsIn r L) (Scan.treesIn r L) (Scan.commitsIn r L) (Scan.tagsIn r L) refs.length :=
+  Scan.scanHypothesesb_sound r L refs h
+
+example : Scan.scanHypothesesb demo demoListing = true := by decide
+example : Scan.runHypothesesb demo demoOps = true := by decide
 
 end GitSizer.T1
